@@ -131,6 +131,59 @@ var nonNilGlobals = map[string]bool{}
 type explorer struct {
 	pg *PG
 	g  *Graph
+	// heap: synthetic variables holding the value last stored into a field
+	// reached from a parameter ("recv.Raw"), by location key; read back until
+	// an opaque call or a store into a field of the same name intervenes
+	heap map[string]*Var
+}
+
+// paramRooted: the term is a chain of field selections (through pointers) that
+// starts at a parameter.
+func paramRooted(t *Term) bool {
+	n := 0
+	for t != nil {
+		switch t.Op {
+		case "field":
+			n++
+			t = t.Args[0]
+		case "deref":
+			t = t.Args[0]
+		case "param":
+			return n > 0
+		default:
+			return false
+		}
+	}
+	return false
+}
+
+func (x *explorer) heapVar(key string, create bool) *Var {
+	if v, ok := x.heap[key]; ok {
+		return v
+	}
+	if !create {
+		return nil
+	}
+	if x.heap == nil {
+		x.heap = map[string]*Var{}
+	}
+	v := &Var{ID: len(x.g.Vars), Name: "heap:" + key, Pinned: true, Captured: true}
+	x.g.Vars = append(x.g.Vars, v)
+	x.heap[key] = v
+	return v
+}
+
+// forgetHeap drops remembered field values: all of them (field == ""), or those
+// of fields with the given name (another path may reach the same object).
+func (x *explorer) forgetHeap(st map[int]Val, field string) {
+	for key, v := range x.heap {
+		if _, ok := st[v.ID]; !ok {
+			continue
+		}
+		if field == "" || strings.HasSuffix(key, "."+field) {
+			delete(st, v.ID)
+		}
+	}
 }
 
 func (x *explorer) val(t *Term, st map[int]Val) Val {
@@ -189,7 +242,15 @@ func (x *explorer) resolve(t *Term, st map[int]Val, depth int) *Term {
 	if changed {
 		n = &Term{Op: t.Op, Name: t.Name, Args: args, V: t.V, Fields: t.Fields, Pos: t.Pos, Owner: t.Owner}
 	}
-	return x.simplify(n, st, depth)
+	r := x.simplify(n, st, depth)
+	if len(x.heap) > 0 && r != nil && r.Op == "field" && paramRooted(r) {
+		if hv := x.heapVar(r.Key(), false); hv != nil {
+			if v, ok := st[hv.ID]; ok && v.T != nil {
+				return v.T
+			}
+		}
+	}
+	return r
 }
 
 func (x *explorer) simplify(t *Term, st map[int]Val, depth int) *Term {
@@ -605,9 +666,10 @@ func (x *explorer) havoc(n *Node, st map[int]Val) {
 			continue
 		}
 		switch c.Name {
-		case "delete", "close", "copy", "recover", "chanrecv", "panic", "print", "println", "min", "max", "make", "new", "clear":
+		case "delete", "close", "copy", "recover", "chanrecv", "panic", "print", "println", "min", "max", "make", "new", "clear", "append", "len", "cap":
 			continue
 		}
+		x.forgetHeap(st, "")
 		for _, a := range c.Args {
 			if a.Op == "var" {
 				if v, ok := st[a.V.ID]; ok && v.T != nil {
@@ -656,6 +718,16 @@ func (x *explorer) locate(f *Term, st map[int]Val) (*Var, []string) {
 		return cur.T.V, path
 	}
 	return nil, nil
+}
+
+// resolveLoc resolves a store target: like resolve, but the location itself is
+// not replaced by the value remembered for it.
+func (x *explorer) resolveLoc(t *Term, st map[int]Val) *Term {
+	saved := x.heap
+	x.heap = nil
+	r := x.resolve(t, st, 0)
+	x.heap = saved
+	return r
 }
 
 // forgetElems drops the remembered element store of every variable that holds
@@ -944,10 +1016,18 @@ func (x *explorer) step(s *PState) []succ {
 			// a store through any other path into an indexed collection
 			forgetElems(st2, x.resolve(r.Args[0], st, 0))
 		}
-		tk := x.deep(x.resolve(n.Target, st, 0), st, 0)
+		tk := x.deep(x.resolveLoc(n.Target, st), st, 0)
 		kind := "store"
 		if done {
 			kind = "lstore" // store into a tracked local object
+		}
+		if !done && tk.Op == "field" {
+			x.forgetHeap(st2, tk.Name)
+			// (an update of the location in terms of itself, req.T = req.T.Truncate(..), keeps the
+			// location's name: the rules speak about "the request's T")
+			if paramRooted(tk) && v.T != nil && !strings.Contains(v.T.Key(), tk.Key()) {
+				st2[x.heapVar(tk.Key(), true).ID] = Val{T: v.T, N: v.N}
+			}
 		}
 		labels = append(labels, Label{Kind: kind, Key: tk.Key(), T: tk, T2: x.deep(v.T, st, 0), Node: n})
 		return next(st2, s.Facts, labels)
